@@ -14,10 +14,12 @@ type reconfState struct {
 	seen       map[string]bool
 	failedGens map[string]map[int]bool // proc -> generations whose open failed
 	appliedRev map[string]string
+	inflight   map[string]int  // processor -> reconfigure requests in flight
+	tainted    map[string]bool // processor -> some of the requests in flight overlapped
 }
 
 func newReconfState() *reconfState {
-	return &reconfState{lastIdx: map[string]int{}, lastGen: map[string]int{}, seen: map[string]bool{}, failedGens: map[string]map[int]bool{}, appliedRev: map[string]string{}}
+	return &reconfState{lastIdx: map[string]int{}, lastGen: map[string]int{}, seen: map[string]bool{}, failedGens: map[string]map[int]bool{}, appliedRev: map[string]string{}, inflight: map[string]int{}, tainted: map[string]bool{}}
 }
 
 func (o *Oracles) onReconfEvent(w *World, e *Event) {
